@@ -71,8 +71,11 @@ static std::string handle_ring(const std::vector<std::string> &t)
   std::vector<std::string> outs;
   std::vector<std::pair<int, bool>> rets;
   std::vector<int> consumed, rest;
+  bool stuck = false;
+  // the buffer is leaked on purpose when threads are left parked inside it (stuck == true)
+  auto *bufp = new CircularBuffer<Elem>(max_size);
   {
-    CircularBuffer<Elem> buf(max_size);
+    CircularBuffer<Elem> &buf = *bufp;
     detsched::name_object(&buf.head_, "head");
     detsched::name_object(&buf.tail_, "tail");
     for (size_t k = 0; k <= max_size; k++) detsched::name_object(&buf.data_[k].ptr_, "s" + std::to_string(k));
@@ -119,10 +122,11 @@ static std::string handle_ring(const std::vector<std::string> &t)
       outs.push_back(detsched::run(a.first, a.second));
     }
     std::string dtrace;
-    bool done = detsched::drain(10000, &dtrace);
+    bool done = detsched::drain(3000, &dtrace);
+    stuck     = !done;
     if (!dtrace.empty()) outs.push_back(dtrace.substr(0, dtrace.size() - 3));
     // final, unmanaged: take out whatever is left
-    size_t left = buf.size();
+    size_t left = stuck ? 0 : buf.size();
     if (left)
       buf.Consume(left, [&](CircularBufferRange<AtomicUniquePtr<Elem>> &range) noexcept {
         range.ForEach([&](AtomicUniquePtr<Elem> &ptr) noexcept {
@@ -141,6 +145,16 @@ static std::string handle_ring(const std::vector<std::string> &t)
     res += "]";
     outs.push_back(std::string("done=") + (done ? "1" : "0") + " res=" + res + " out=" + show_ids(consumed) +
                    " rest=" + show_ids(rest));
+  }
+  if (!stuck) delete bufp;
+  if (stuck)
+  {
+    outs.back() += " live=?";
+    std::string o = vh::join(outs, " ; ");
+    fputs(o.c_str(), stdout);
+    fputc('\n', stdout);
+    fflush(stdout);
+    _exit(77);  // threads are still parked inside the buffer code: they cannot be joined; ask for a fresh process
   }
   detsched::reset();
   outs.back() += " live=" + std::to_string(Elem::live);
@@ -214,7 +228,7 @@ static std::string handle_spin(const std::vector<std::string> &t)
     }
     for (int a : acts) outs.push_back(a < 0 ? std::string("x") : detsched::run(a));
     std::string dtrace;
-    bool done = detsched::drain(1000000, &dtrace);
+    bool done = detsched::drain(3000, &dtrace);
     if (!dtrace.empty()) outs.push_back(dtrace.substr(0, dtrace.size() - 3));
     std::string tr;
     for (size_t i = 0; i < tries.size(); i++)
@@ -225,6 +239,14 @@ static std::string handle_spin(const std::vector<std::string> &t)
     // read the flag without a scheduling point (unmanaged thread)
     bool flag = mu.try_lock() ? false : true;
     outs.push_back(std::string("done=") + (done ? "1" : "0") + " viol=" + std::to_string(viol) + " try=[" + tr + "] flag=" + (flag ? "1" : "0"));
+    if (!done)
+    {
+      std::string o = vh::join(outs, " ; ");
+      fputs(o.c_str(), stdout);
+      fputc('\n', stdout);
+      fflush(stdout);
+      _exit(77);
+    }
   }
   detsched::reset();
   return vh::join(outs, " ; ");
